@@ -154,6 +154,11 @@ func (g *G) buildPaths() {
 		add(grl.P("J.o.k"), grl.TFloat, true, true).json = true
 		add(grl.P("J.a").Idx(lit(int64(n%3))), grl.TFloat, true, true).json = true
 	}
+	// the same members addressed with a selector (J["n"] is J.n): one place, two texts
+	add(grl.P("J").Idx(grl.LitStr("n")), grl.TFloat, true, true).json = true
+	add(grl.P("J").Idx(grl.LitStr("s")), grl.TString, true, true).json = true
+	add(grl.P("J").Idx(grl.LitStr("b")), grl.TBool, true, true).json = true
+	add(grl.P("J.o").Idx(grl.LitStr("k")), grl.TFloat, true, true).json = true
 	// hot set: a handful of paths that conditions read and actions write preferentially
 	nh := g.R.Range(3, 6)
 	for i := 0; i < nh; i++ {
@@ -827,6 +832,7 @@ func Scenario(property string, seed uint64, prof Profile) *core.Scenario {
 	}
 	if r.Chance(prof.PRemoved, 100) && len(sc.Program.Rules) > 1 {
 		sc.Removed = []string{sc.Program.Rules[r.Intn(len(sc.Program.Rules))].Name}
+		sc.Knobs.RemoveOnInstance = core.Mix(seed, 0x4e)%2 == 0 // derived, not drawn
 	}
 	AnnounceFieldMethods(sc.Program, r)
 	// other notations of the same literal (hexadecimal / octal integers, TRUE / True): from a generator of
